@@ -43,7 +43,13 @@ EXPLANATION = (
     'freshly computed flat data with the same lengths; (D3) with copy=True '
     'every definition of self._data in the constructor is copy-making with '
     'the copy flag flowing unmodified (default True) and self.lengths is '
-    'always a fresh array.  Statements are recognised by role after expansion '
+    'always a fresh array.  Added after the bug hunt: (D4) every slot is stored when the constructor returns, the '
+    'rectangular row view names its row count (no -1 next to a row length that may be 0); (D6) append joins the new '
+    'rows along axis 0 and tells a flat row apart before np.concatenate, __setitem__ probes value[0] only behind a '
+    'non-emptiness test; (D7) no writer builds the row container by np.array(<rows>, dtype=object); (D2) the class opts '
+    'out of numpy operator dispatch so that numpy left operands reach the reflected operators; the slice-bound and '
+    'index-dtype rules of the read path (C05.D2/D4/D5) are run for the helpers the writer reaches.  '
+    'Statements are recognised by role after expansion '
     'of temporaries; an unrecognised re-synchronisation is reported as '
     'analysis-incomplete, not as a violation.  Agreement with the list-of-rows '
     'model over whole operation histories is not decided (the rows-of-object '
@@ -1206,7 +1212,9 @@ def d5_write_addressing(ck, mod):
     try:
         from . import C05
         rules = [('_convert_from_2d', C05.d1_call_sites), ('_get_iis_from_list', None), ('_slice_to_list', C05.d3_row_count),
-                 (None, C05.d3_dispatch), ('_get_iis_from_slices', C05.d4_index_space)]
+                 (None, C05.d3_dispatch), ('_get_iis_from_slices', C05.d4_index_space),
+                 # a[rows, -k:] = v / a[:5, 0] = v / a[mask] = v address cells through the same helpers as the reads
+                 ('_slice_to_list', C05.d2_slices), ('_convert_from_1d', C05.d5_index_dtype)]
     except (ImportError, AttributeError) as e:
         ck.missing(rule, 'index-space rules of the read path (sa/rules/C05.py) not available: %r' % (e,))
         return
@@ -1235,6 +1243,357 @@ def d5_write_addressing(ck, mod):
     ck.floor(rule, n, 5, 'index-space rule groups applied to the write path')
 
 
+# ---------------------------------------------------------------------------
+# D4b every slot is stored when the constructor returns
+
+def slots_definite_at_exit(ck, rule, mod, qual, max_atoms=10):
+    """For every truth assignment of the constructor's syntactic branch
+    conditions (atoms treated as independent, as in
+    extra.attrs_definite_in_constructor) every name in __slots__ has been
+    stored when the constructor returns normally.  A slot left unset is an
+    AttributeError in the first method that reads it (there is no class-level
+    default with __slots__).  Stores inside loop bodies do not count (zero
+    trips); a try body counts only when no handler can complete normally."""
+    import itertools
+    from .extra import _bool_atoms, _bool_eval
+    fn = mod.functions.get(qual)
+    cls = mod.parent.get(fn) if fn is not None else None
+    if fn is None or not isinstance(cls, ast.ClassDef):
+        ck.missing(rule, 'constructor %s in %s' % (qual, mod.rel))
+        return 0
+    slots = None
+    for b in cls.body:
+        if isinstance(b, ast.Assign) and any(isinstance(t, ast.Name) and t.id == '__slots__' for t in b.targets):
+            if isinstance(b.value, (ast.Tuple, ast.List)) and all(isinstance(const_value(e), str) for e in b.value.elts):
+                slots = [const_value(e) for e in b.value.elts]
+            else:
+                ck.missing(rule, '__slots__ of %s is not a display of string constants' % cls.name)
+                return 0
+    if slots is None:
+        ck.ok(rule, mod, cls, '%s has no __slots__' % cls.name, 'attribute defaults may live in the class: not checked')
+        return 1
+    me = params(fn)[0] if params(fn) else 'self'
+    atoms = []
+    for s in walk_local(fn):
+        if isinstance(s, ast.If):
+            _bool_atoms(s.test, atoms)
+    if len(atoms) > max_atoms:
+        ck.missing(rule, '%s has %d branch conditions: truth-table enumeration not attempted' % (qual, len(atoms)))
+        return 0
+
+    def stores_of(stmt):
+        out = set()
+        tg = stmt.targets if isinstance(stmt, ast.Assign) else ([stmt.target] if isinstance(stmt, ast.AnnAssign) and stmt.value is not None else [])
+        for t in tg:
+            for e in (t.elts if isinstance(t, (ast.Tuple, ast.List)) else [t]):
+                if isinstance(e, ast.Attribute) and isinstance(e.value, ast.Name) and e.value.id == me:
+                    out.add(e.attr)
+        if isinstance(stmt, ast.Expr) and isinstance(stmt.value, ast.Call):
+            c = stmt.value
+            if call_name(c) == 'setattr' and len(c.args) >= 2 and isinstance(c.args[0], ast.Name) and c.args[0].id == me and \
+                    isinstance(const_value(c.args[1]), str):
+                out.add(const_value(c.args[1]))
+            # delegation to another constructor run / helper on the receiver: cannot see which slots it stores
+            if isinstance(c.func, ast.Attribute) and isinstance(c.func.value, ast.Name) and c.func.value.id == me:
+                out.add('*')
+        return out
+
+    def run(stmts, have, env):
+        for s in stmts:
+            if isinstance(s, ast.If):
+                v = _bool_eval(s.test, env)
+                if v is True:
+                    if not run(s.body, have, env):
+                        return False
+                elif v is False:
+                    if not run(s.orelse, have, env):
+                        return False
+                else:
+                    h1, h2 = set(have), set(have)
+                    a, b = run(s.body, h1, env), run(s.orelse, h2, env)
+                    if not a and not b:
+                        return False
+                    keep = (h1 if a else h2) & (h2 if b else h1)
+                    have.clear()
+                    have.update(keep)
+                continue
+            if isinstance(s, ast.Try):
+                hb = set(have)
+                alive = run(s.body, hb, env)
+                outs = [hb] if alive else []
+                for h in s.handlers:
+                    hh = set(have)
+                    if run(h.body, hh, env):
+                        outs.append(hh)
+                if not outs:
+                    return False
+                keep = set.intersection(*outs)
+                if s.orelse and alive:
+                    run(s.orelse, keep, env)
+                if s.finalbody:
+                    run(s.finalbody, keep, env)
+                have.clear()
+                have.update(keep)
+                continue
+            if isinstance(s, ast.With):
+                if not run(s.body, have, env):
+                    return False
+                continue
+            if isinstance(s, (ast.For, ast.While)):
+                run(s.body, set(have), env)
+                continue
+            if isinstance(s, (ast.Return, ast.Raise)):
+                if isinstance(s, ast.Return):
+                    exits.append((set(have), dict(env), s))
+                return False
+            have.update(stores_of(s))
+        return True
+
+    unset = {}
+    for values in itertools.product((True, False), repeat=len(atoms)):
+        env = dict(zip(atoms, values))
+        exits = []
+        have = set()
+        if run(fn.body, have, env):
+            exits.append((have, env, None))
+        for h, e, at in exits:
+            if '*' in h:
+                continue
+            for a in slots:
+                if a not in h:
+                    unset.setdefault(a, []).append(e)
+    for a in slots:
+        envs = unset.get(a)
+        if not envs:
+            ck.ok(rule, mod, fn, '%s: slot %s' % (qual, a), 'stored on every path on which the constructor returns (%d assignments of %d conditions)'
+                  % (2 ** len(atoms), len(atoms)))
+            continue
+        rel = {x: envs[0][x] for x in atoms if all(e[x] == envs[0][x] for e in envs)}
+        wit = ', '.join('%s is %s' % (x, v) for x, v in rel.items())
+        ck.bad(rule, mod, fn, qual, '%s.%s may be left unset when the constructor returns' % (me, a),
+               'no store to %s.%s on the path selected by {%s}: the object is handed out without this slot, and the first method that '
+               'reads it (append, size, flatten, dtype, the operators) raises AttributeError - e.g. RaggedArray([]) followed by '
+               'append(...), which the method documents as supported ("if the current RaggedArray is blank ...")' % (me, a, wit), wit)
+    return len(slots)
+
+
+def d4_reshape_rows(ck, mod):
+    """Second half of G5.  A ragged array may consist of EMPTY rows only (the
+    transitions of trajectories that never change state, a column slice beyond
+    every row): flat data of size 0, lengths [0, 0, ...].  On the equal-length
+    fast path the row view `self._data.reshape(-1, <row length>)` then asks
+    numpy to infer the number of rows from 0 / 0 (ValueError "cannot reshape
+    array of size 0 into shape (0)"): with a row length taken from the lengths
+    the row count must be explicit (len(lengths)), never the -1 placeholder."""
+    rule = 'C06.D4.constructor-definite-attributes.reshape-rows'
+    from .C05 import _trailing_shape, _xc
+    q = CLS + '.__init__'
+    fn = mod.functions.get(q)
+    if fn is None:
+        ck.missing(rule, q)
+        return
+    cx = Ctx(mod, fn)
+    DATA = '%s._data' % cx.me
+    n = 0
+    for s in walk_local(fn):
+        if not (isinstance(s, ast.Assign) and len(s.targets) == 1 and cx.is_me_attr(s.targets[0], '_array')):
+            continue
+        v = _xc(cx.fi, s.value)
+        if not (isinstance(v, ast.Call) and isinstance(v.func, ast.Attribute) and v.func.attr == 'reshape' and u(v.func.value) == DATA):
+            continue
+        args, _ = _trailing_shape(v, DATA)
+        from_lengths = [a for a in args if any(isinstance(x, ast.Name) and x.id == 'lengths' and cx.param_only(x) for x in ast.walk(a))]
+        if not from_lengths:
+            continue            # the single-row view: its length is len(array) > 0 on that branch
+        n += 1
+        placeholder = [a for a in args if const_value(a, 'x') == -1]
+        ck.check(not placeholder, rule, mod, s, q, 'row count of the rectangular row view (reshape of %s)' % DATA,
+                 'the number of rows is explicit',
+                 'the row view is %s.reshape(-1, <row length taken from lengths>): for a ragged array of empty rows only (size 0, lengths '
+                 '[0, 0]) numpy cannot infer -1 from 0 / 0 and raises ValueError, e.g. disorder.transitions of trajectories without a '
+                 'transition, a[:, 5:] beyond every row.  The row count must be len(lengths)' % DATA)
+    if n == 0:
+        ck.ok(rule, mod, fn, '%s: no rectangular fast path over caller-supplied lengths' % q, 'nothing to infer')
+
+
+# ---------------------------------------------------------------------------
+# D6 append: flat data keeps its element dimensions, every accepted input form reaches its handler
+
+def d6_append(ck, mod):
+    q = CLS + '.append'
+    fn = mod.functions.get(q)
+    if fn is None:
+        ck.missing('C06.D6.append', '%s not found' % q)
+        return
+    cx = Ctx(mod, fn)
+    fi = cx.fi
+    ck.analysed(mod, fn)
+    # (a) np.append without axis ravels both operands (numpy: "If axis is not given, both arr and values are flattened before use")
+    rule = 'C06.D6.append.flat-axis'
+    n = 0
+    for s in walk_local(fn):
+        if not (isinstance(s, ast.Assign) and len(s.targets) == 1 and cx.is_me_attr(s.targets[0], '_data')):
+            continue
+        E = cx.vexpand(s.value, s)
+        for c in ast.walk(E):
+            if isinstance(c, ast.Call) and call_name(c) == 'np.append' and c.args and _mentions_attr(cx, c.args[0], '_data'):
+                n += 1
+                has_axis = kwarg(c, 'axis') is not None or len(c.args) >= 3
+                ax = kwarg(c, 'axis') if kwarg(c, 'axis') is not None else (c.args[2] if len(c.args) >= 3 else None)
+                ck.check(has_axis and const_value(ax, 'x') is not None, rule, mod, s, q, 'flat data extended by np.append(%s._data, <new rows>)' % cx.me,
+                         'appended along the ragged axis (axis=%s): the element dimensions are kept' % (u(ax) if ax is not None else '?'),
+                         'np.append without axis flattens both operands: for a ragged array with multi-dimensional elements (flat data of shape '
+                         '(N, 3), rows of shape (n_i, 3)) the flat data becomes one-dimensional, partition_list then raises DataInvalid, and the '
+                         'object is left with the new flat data and lengths but the old rows.  The new rows must be joined along axis 0 '
+                         '(np.append(..., axis=0) / np.concatenate([self._data, new]))')
+            elif isinstance(c, ast.Call) and call_name(c) in ('np.concatenate', 'np.vstack') and _mentions_attr(cx, c, '_data'):
+                n += 1
+                ck.ok(rule, mod, s, u(s)[:120], 'joined along the first axis')
+    if n == 0:
+        ck.missing(rule, '%s: extension of the flat data (self._data = np.append(self._data, ...)) not found' % q)
+    # (b) a single row given as a flat sequence: the method distinguishes the form (an arm for `not _is_iterable(values[0])`),
+    #     so the form must reach that distinction BEFORE anything that only works for a sequence of rows (np.concatenate(values)
+    #     raises "zero-dimensional arrays cannot be concatenated" for a sequence of scalars)
+    rule = 'C06.D6.append.row-forms'
+    if len(cx.params) < 2:
+        ck.missing(rule, '%s(self, values): parameters' % q)
+        return
+    V = cx.params[1]
+
+    def probes(e):
+        """element-iterability probe of the parameter: _is_iterable(V[0]) / np.ndim(V[0]) / isinstance(V[0], ...) / hasattr(V[0], ...)"""
+        for c in ast.walk(e):
+            if isinstance(c, ast.Call) and (call_name(c) or '').split('.')[-1] in ('_is_iterable', 'ndim', 'isinstance', 'hasattr', 'isscalar', 'iter') and c.args:
+                a = c.args[0]
+                if isinstance(a, ast.Subscript) and isinstance(a.value, ast.Name) and a.value.id == V and const_value(a.slice, 'x') == 0:
+                    return True
+        return False
+    headers = [s for s in walk_local(fn) if isinstance(s, ast.If) and probes(s.test)]
+    if not headers:
+        ck.ok(rule, mod, fn, '%s: no arm for a flat row' % q, 'the method does not distinguish a flat row from a sequence of rows')
+        return
+    cfg = fi.cfg
+    m = 0
+    for c in walk_local(fn):
+        if not (isinstance(c, ast.Call) and call_name(c) in ('np.concatenate', 'np.hstack', 'np.vstack') and c.args and
+                isinstance(c.args[0], ast.Name) and c.args[0].id == V):
+            continue
+        st = fi.stmt(c)
+        if st is None:
+            continue
+        m += 1
+        doms = [h for h in headers if cfg.dominates(h, st)]
+        ck.check(bool(doms), rule, mod, st, q, 'np.concatenate(<values>) of the rows to append',
+                 'the flat-row form is told apart (%s) before the rows are concatenated' % (u(doms[0].test)[:80] if doms else ''),
+                 'the method has an arm for a single row given as a flat sequence (`%s`, L%s), but np.concatenate(%s) runs first on every '
+                 'path and raises ValueError for a sequence of scalars: a.append([6, 7]) fails on a non-empty array although the same '
+                 'argument works for the constructor and for append on a blank array; the arm is dead code'
+                 % (u(headers[0].test)[:60], getattr(headers[0], 'lineno', '?'), V))
+    if m == 0:
+        ck.ok(rule, mod, fn, '%s: rows are not joined by np.concatenate(%s)' % (q, V), 'nothing that needs a sequence of rows runs on the raw argument')
+
+
+# ---------------------------------------------------------------------------
+# D6 the value probe of __setitem__
+
+def d6_value_probe(ck, mod):
+    """`value[0]` is read to tell a nested value from a flat one.  The selection -
+    and with it the value of a read-modify-write `a[mask] += 1`, `a[:, k:] *= 2` -
+    may be EMPTY, so the probe must be preceded by a non-emptiness test."""
+    rule = 'C06.D6.value-probe'
+    q = CLS + '.__setitem__'
+    fn = mod.functions.get(q)
+    if fn is None or len(params(fn)) < 3:
+        ck.missing(rule, '%s(self, index, value)' % q)
+        return
+    V = params(fn)[2]
+    fi = finfo(mod, fn)
+    from ..patterns import conjuncts, Cmp
+
+    def nonempty(test, pol=True):
+        for c in conjuncts(test, pol) or []:
+            if isinstance(c, Cmp):
+                al = c.as_less()
+                txt = {u(c.lhs), u(c.rhs)}
+                sizes = {'len(%s)' % V, '%s.size' % V, 'np.size(%s)' % V}
+                if al is not None and u(al[2]) in sizes and ((const_value(al[0], 'x') == 0 and al[1]) or (const_value(al[0], 'x') == 1 and not al[1])):
+                    return True
+                if c.op in (ast.NotEq,) and txt & sizes and '0' in txt:
+                    return True
+            elif c[2] is True and u(c[1]) in ('len(%s)' % V, '%s.size' % V):
+                return True
+        return False
+    n = 0
+    for sub in walk_local(fn):
+        if not (isinstance(sub, ast.Subscript) and isinstance(sub.ctx, ast.Load) and isinstance(sub.value, ast.Name) and sub.value.id == V
+                and const_value(sub.slice, 'x') == 0 and not isinstance(const_value(sub.slice, 'x'), bool)):
+            continue
+        n += 1
+        st = fi.stmt(sub)
+        ok = False
+        # short-circuit inside the same test: <non-empty> and probe(value[0])
+        child, par = sub, mod.parent.get(sub)
+        while par is not None and par is not st:
+            if isinstance(par, ast.BoolOp) and isinstance(par.op, ast.And):
+                idx = [i for i, x in enumerate(par.values) if x is child]
+                if idx and any(nonempty(x) for x in par.values[:idx[0]]):
+                    ok = True
+            child, par = par, mod.parent.get(par)
+        if not ok:
+            for a in fi.cfg.nodes:
+                if isinstance(a, Assume) and fi.cfg.dominates(a, st) and nonempty(a.test, a.polarity):
+                    ok = True
+        ck.check(ok, rule, mod, st, q, 'probe of the first element of the assigned value (<value>[0])',
+                 'guarded by a non-emptiness test',
+                 '`%s[0]` is evaluated under `_is_iterable(%s)` only; iterable does not mean non-empty: when the index selects nothing '
+                 '(all-False mask, column slice beyond every row) the value of a read-modify-write such as a[mask] += 1 is the empty '
+                 'selection and the probe raises IndexError where the list-of-rows model performs no write' % (V, V))
+    if n == 0:
+        ck.ok(rule, mod, fn, '%s: the assigned value is never probed by <value>[0]' % q, 'nothing to guard')
+
+
+# ---------------------------------------------------------------------------
+# D2b reflected operators are reachable from numpy left operands
+
+def d2_reflected_dispatch(ck, mod):
+    """`np.float64(2) * a`, `a.max() - a`, `ndarray + a`: numpy's own binary
+    operators are tried first.  They return NotImplemented (so that python
+    calls RaggedArray.__r*__) only for a right operand that opts out of
+    numpy's dispatch - `__array_ufunc__ = None` in the class body (NEP 13), or,
+    for classes without __array_ufunc__, an `__array_priority__` above
+    ndarray's.  Otherwise numpy coerces the ragged array through its sequence
+    protocol (__len__/__getitem__) and the reflected methods are dead."""
+    rule = 'C06.D2.pure-operators.reflected-dispatch'
+    cls = mod.classes.get(CLS)
+    if cls is None:
+        ck.missing(rule, 'class %s' % CLS)
+        return
+    names = {b.name for b in cls.body if isinstance(b, (ast.FunctionDef, ast.AsyncFunctionDef))}
+    reflected = sorted(n for n in names if n.startswith('__r') and n.endswith('__') and n not in ('__repr__', '__reduce__', '__reduce_ex__', '__reversed__', '__round__'))
+    if not reflected:
+        ck.ok(rule, mod, cls, '%s defines no reflected operator' % CLS, 'nothing to dispatch to')
+        return
+    optout = None
+    for b in cls.body:
+        tg = b.targets if isinstance(b, ast.Assign) else ([b.target] if isinstance(b, ast.AnnAssign) and b.value is not None else [])
+        for t in tg:
+            if isinstance(t, ast.Name) and t.id == '__array_ufunc__' and isinstance(b.value, ast.Constant) and b.value.value is None:
+                optout = b
+            if isinstance(t, ast.Name) and t.id == '__array_priority__' and isinstance(const_value(b.value), (int, float)) and \
+                    not isinstance(const_value(b.value), bool) and const_value(b.value) > 0:
+                optout = b
+    if '__array_ufunc__' in names:
+        ck.missing(rule, '%s implements __array_ufunc__: deferral of numpy operands not analysed' % CLS)
+        return
+    ck.check(optout is not None, rule, mod, optout if optout is not None else cls, CLS,
+             'numpy left operands reach the reflected operators (%d defined)' % len(reflected),
+             'the class opts out of numpy\'s operator dispatch (%s)' % (u(optout) if optout is not None else ''),
+             'the class defines %s but neither `__array_ufunc__ = None` nor a positive `__array_priority__`: for a numpy scalar or array as LEFT '
+             'operand (a.max() - a, np.float64(2) * a, np.int64(4) == a) numpy does not return NotImplemented but converts the ragged array '
+             'through __len__/__getitem__: ValueError for ragged rows, a bare object ndarray (row structure lost) for equal-length rows; the '
+             'reflected methods are never called' % ', '.join(reflected[:4]))
+
+
 def check(ck):
     del _REPO[:]
     _REPO.append(ck.repo)
@@ -1242,12 +1601,20 @@ def check(ck):
     writers, pure = d1_writers(ck, mod)
     d2_pure(ck, mod, pure)
     d3_copy(ck, mod)
-    from .C05 import d7_constructor_and_lists
-    d7_constructor_and_lists(ck, mod)
+    from .C05 import d7_constructor_and_lists, row_container
+    d7_constructor_and_lists(ck, mod, container=False)
+    # the row container is rebuilt by every writer (and the constructor is re-run on it)
+    nrc = row_container(ck, mod, 'C06.D7.row-container', [CLS + '.__init__', CLS + '.__setitem__', CLS + '.append'])
+    ck.floor('C06.D7.row-container', nrc, 4, 'stores into the row container in the writers')
     d5_write_addressing(ck, mod)
+    d6_append(ck, mod)
+    d6_value_probe(ck, mod)
+    d2_reflected_dispatch(ck, mod)
     # added after the seeding rounds (DESIGN.md 11.2, G5): every instance slot read by
     # the constructor is stored first, for every combination of its branch conditions
     from . import extra
     n = extra.attrs_definite_in_constructor(ck, 'C06.D4.constructor-definite-attributes', mod, 'RaggedArray.__init__')
     ck.floor('C06.D4.constructor-definite-attributes', n, 4, 'reads of instance attributes in RaggedArray.__init__')
+    slots_definite_at_exit(ck, 'C06.D4.constructor-definite-attributes.exit', mod, 'RaggedArray.__init__')
+    d4_reshape_rows(ck, mod)
     return EXPLANATION
